@@ -687,13 +687,30 @@ def oracle(c, obs):
         if [r[0] for r in obs[2]] != ids:
             fails.append('metadata export lists the ids %s' % [r[0] for r in obs[2]])
             return fails
-        for (i, d), (_, cells) in zip(_expected_md(ids, md), obs[2]):
+        wide = {k for k, ws in _widths(md).items() if any(x > 0 for x in ws)}      # keys some id holds a list under
+        for (i, entry), (_, cells) in zip(zip(ids, md), obs[2]):
+            if len(cells) != len(cols):
+                fails.append('metadata export: row %s has %d cells for %d columns' % (i, len(cells), len(cols)))
+                continue
             row = dict(zip(cols, cells))
-            for lab, v in d.items():
+            want = {}
+            for key, v in entry:
+                if isinstance(v, (list, tuple)):
+                    if key in wide:
+                        for n, x in enumerate(v):
+                            want['%s_%d' % (key, n)] = x
+                    else:
+                        want[key] = v          # only empty lists under this key: one plain column
+                elif key in wide:
+                    if v is not None:
+                        want[key + '_0'] = v   # a scalar among lists: shown as a one-item list
+                else:
+                    want[key] = v
+            for lab, v in want.items():
                 if lab not in row or canon(row[lab]) != canon(conv(v)):
                     fails.append('metadata export: id %s column %s shows %r, the metadata holds %r' % (i, lab, row.get(lab), v))
             for lab in cols:
-                if lab not in d and row.get(lab) is not None:
+                if lab not in want and row.get(lab) is not None:
                     fails.append('metadata export: id %s column %s shows %r, the metadata has no such entry' % (i, lab, row.get(lab)))
     return fails[:6]
 
